@@ -4,8 +4,11 @@ from ._sched_common import LEVEL, ASSUMPTIONS, BUDGET, make_run
 RULE = ('history generator of C01 biased to finite limits on server/rack/pod/cell levels shared per affinity name, '
         'topologies of depth 1-2 and capacity pressure; oracle after every cycle: for every node of the tree and '
         'affinity, leaf recount <= min declared limit for that level, and node.affinity_counters == recount. '
+        'In the Master-level histories, before every write of every publication (init_schedule / reschedule) the STORED '
+        'placement - what a master that stops there leaves to a successor that restores records verbatim - is recounted '
+        'the same way (per server / rack / pod / cell and affinity name against the limits the recorded instances carry). '
         'Non-trivial: a finite limit on a bucket level and an eviction in the history.')
-REQUIRED_REACH = {'*': ['evictions', 'put_restore', 'put_evict']}
+REQUIRED_REACH = {'*': ['evictions', 'put_restore', 'put_evict', 'stored_affinity_headroom_checked_at_cut']}
 
 
 def _tweak(pf, rng):
